@@ -89,7 +89,7 @@ PROPS = {
     },
     'C04': {
         'level': 'proof',
-        'verus': [{'group': 'c04_zset_arith'}, {'group': 'shard_zsets', 'units': ['zadd', 'zincrby', 'zrem', 'zscore', 'zcard']}, _cg('srv_zsets'), _cg('exec_zsets')],
+        'verus': [{'group': 'c04_zset_arith'}, {'group': 'shard_zsets', 'units': ['zadd', 'zincrby', 'zrem', 'zscore', 'zcard', 'zrangebyscore']}, _cg('srv_zsets'), _cg('exec_zsets')],
         'kani': SKIPLIST_KANI,
         'explanation': 'rank-range arithmetic of ZRANGE/ZREVRANGE/ZRANK against spec_zrange with the skip list behind an assumed contract',
     },
